@@ -7,7 +7,22 @@ from ..model import norm, parents, enclosing
 from ..util import require_func, execute_sites, calls_in, call_attr, is_name, const_str, kwarg
 
 
-def fmt_shape(e):
+def fmt_shape(e, resolver=None):
+    sh = _fmt_shape(e)
+    if sh is None or resolver is None:
+        return sh
+    out = []
+    for part in sh:
+        if isinstance(part, tuple) and part[1].isidentifier():
+            v = resolver(part[1])
+            if v is not None:
+                out.append(("expr", norm(v)))
+                continue
+        out.append(part)
+    return out
+
+
+def _fmt_shape(e):
     """['%s_%s' % (a, b)], a + '_' + str(b), f'{a}_{b}'  ->  [a, '_', b] with
     expressions normalised to source text."""
     if isinstance(e, ast.BinOp) and isinstance(e.op, ast.Mod) and const_str(e.left) is not None:
@@ -23,7 +38,7 @@ def fmt_shape(e):
                 out.append(("expr", norm(args[i])))
         return out
     if isinstance(e, ast.BinOp) and isinstance(e.op, ast.Add):
-        l, r = fmt_shape(e.left), fmt_shape(e.right)
+        l, r = _fmt_shape(e.left), _fmt_shape(e.right)
         if l is None or r is None:
             return None
         return l + r
@@ -151,6 +166,20 @@ def r1_r2_r3(ctx):
                    sig="callable result guarded by %s" % g)
         else:
             ctx.ob("R1", False, "every exit of the id key loop is one of the documented forms", node=r, func=f, sig="unexpected %s" % norm(r))
+    # R3 applies to every exit that uses an attribute's first value, also outside the key loop (fast paths)
+    for r in [n for n in ast.walk(f.node) if isinstance(n, ast.Return) and loop not in list(parents(n))]:
+        v = r.value
+        if isinstance(v, ast.Subscript) and isinstance(v.slice, ast.Constant) and v.slice.value == 0 and \
+                (("%s.attributes[" % fv) in norm(v.value) or norm(v.value).startswith("%s[" % fv)):
+            node = cfg.node_for(r)
+            dom_ok = False
+            for n in ast.walk(f.node):
+                if isinstance(n, ast.If) and isinstance(n.test, ast.Compare) and norm(n.test.left) == "len(%s)" % norm(v.value) \
+                        and isinstance(n.test.ops[0], ast.Gt) and norm(n.test.comparators[0]) == "1" and any(isinstance(b, ast.Raise) for b in n.body):
+                    if cfg.dominates(cfg.node_for(n).id, node.id):
+                        dom_ok = True
+            ctx.ob("R3", dom_ok, "an id attribute with several values is rejected before its first value could be used", node=r, func=f,
+                   sig="multi-value check dominates %s" % norm(r) if dom_ok else "%s not dominated by a len(...) > 1 rejection" % norm(r))
     for k, what in (("field", "':field:' form"), ("attr", "attribute form"), ("callable", "callable form"), ("auto", "'autoincrement:X' form")):
         ctx.ob("R1", k in kinds, "_id_handler handles the %s" % what, func=f, sig="%s %s" % (what, "present" if k in kinds else "missing"), nontrivial=False)
     # ---- R2: prefix slice
@@ -212,6 +241,28 @@ def r4(ctx):
     mcfg = cfg_of(m)
     for a in asg:
         sh = fmt_shape(a.value)
+        # id generation factored into a helper method: judge the helper's returned shape, with its parameter as the base
+        if isinstance(a.value, ast.Call) and isinstance(a.value.func, ast.Attribute) and is_name(a.value.func.value, "self"):
+            hs = ctx.proj.resolve_call(a.value, m)[0]
+            if len(hs) == 1:
+                h = hs[0]
+                ctx.touch(h)
+                hp = [p_ for p_ in h.params if p_ != "self"]
+                hr = [n for n in ast.walk(h.node) if isinstance(n, ast.Return) and n.value is not None]
+                hcfg = cfg_of(h)
+                if len(hp) >= 1 and len(hr) == 1:
+                    from ..util import single_assignment
+                    res_ = lambda nm: single_assignment(h.node, nm) if nm not in hp else None
+                    hsh = fmt_shape(hr[0].value, res_)
+                    if isinstance(hr[0].value, ast.Name):
+                        v_ = single_assignment(h.node, hr[0].value.id)
+                        hsh = fmt_shape(v_, res_) if v_ is not None else hsh
+                    hinc = [n for n in ast.walk(h.node) if isinstance(n, ast.AugAssign) and norm(n.target) == "self._autoincrements[%s]" % hp[0] and norm(n.value) == "1"]
+                    okh = hsh == [("expr", hp[0]), "_", ("expr", "self._autoincrements[%s]" % hp[0])] and bool(hinc) and \
+                        hcfg.dominates(hcfg.node_for(hinc[0]).id, hcfg.node_for(hr[0]).id)
+                    ctx.ob("R4", okh, "merge() numbers its outputs with the same counters and the same <base>_<n> shape (through %s)" % h.name, node=a, func=m,
+                           sig="merge id via %s: %s" % (h.name, "base_n after increment" if okh else hsh))
+                    continue
         ok = sh is not None and len(sh) == 3 and sh[1] == "_" and sh[0][0] == "expr" and sh[2] == ("expr", "self._autoincrements[%s]" % sh[0][1])
         ctx.ob("R4", ok, "merge() numbers its outputs with the same counters and the same <base>_<n> shape", node=a, func=m,
                sig="merge id format %s" % (sh if sh is not None else norm(a.value)))
